@@ -743,6 +743,16 @@ class ExprMixin:
         if a.get('kind') == 'CXXDefaultArgExpr':
             init = [c for c in p.get('inner', []) if 'valueCategory' in c]
             if not init:
+                if not self.fn_is_lifted(fd):
+                    # default argument of a library function (trusted model): an unconstrained object of the right type
+                    pti = self.tinfo(pts, p)
+                    t = cx.newtmp('da')
+                    if self.is_ref(pts):
+                        bti = dict(pti); bti['suf'] = pti['suf'][:-1]
+                        self.emit_pre(cx, '%s;' % self.decl_of(bti, t))
+                        return '&%s' % t
+                    self.emit_pre(cx, '%s;' % self.decl_of(pti, t))
+                    return t
                 # the default argument may live on another declaration of fd
                 self.err(a, 'default argument not found')
             a = init[0]
@@ -807,6 +817,9 @@ class ExprMixin:
             return '((void)0)'
         if fd.get('name') == '__builtin_expect' and len(args) == 2:
             return self.rv(args[0], cx)
+        if q == 'std::throw_with_nested' and len(args) == 1:
+            self.throw_value(args[0], cx, nested=True)
+            return '((void)0)'
         if q in ('std::terminate', 'abort', 'std::abort'):
             self.emit_pre(cx, '__CPROVER_assert(0, "repo_terminate %s");' % self.ast.loc(e))
             self.emit_pre(cx, '__CPROVER_assume(0);')
